@@ -1,6 +1,10 @@
 """C10 — the problem kind reports every feature the problem uses.
 
-Bounded run-time contract: an independent syntactic feature extractor (spec below, written from the property statement,
+Proved (pyvc, every run): the per-construct updaters of `_KindFactory` (update_problem_kind_expression / _type / _effect /
+_fluent, update_action_parameter) record the feature the table below demands, for every input (UNITS below).
+
+Bounded run-time contract for everything else (the traversal applying the updaters, duration / metric / initial-state
+updaters, subclass kind factories): an independent syntactic feature extractor (spec below, written from the property statement,
 not from _KindFactory) is run on generated problems of every class and on the example corpus; every feature it finds must
 be in `problem.kind.features`.  The extractor is deliberately conservative (demands a feature only when the construct is
 syntactically present in a place an engine must interpret; where the library distinguishes a STATIC_ variant either is
